@@ -513,7 +513,7 @@ def reread_after_use(ck, desc, res, fluid, pp_seen, t_seen, caller_time=None, pl
                 import bluebonnet.plotting as bp
 
                 bp.plot_pseudopressure(res, every=max(1, pp_seen.shape[0] // 3), rescale=True)
-                bp.plot_pseudopressure(res, every=1, rescale=False)
+                bp.plot_pseudopressure(res, every=max(1, pp_seen.shape[0] // 40), rescale=False)
                 bp.plot_recovery_factor(res, change_ticks=True)
                 bp.plot_recovery_rate(res)
                 plt.close("all")
